@@ -1,5 +1,6 @@
 """Expand all subcircuits in place in a Circuit."""
 
+from jaqalpaq.error import nesting_guard
 from jaqalpaq.core.algorithm.visitor import Visitor
 from jaqalpaq.core.circuit import Circuit
 from jaqalpaq.core.block import BlockStatement, LoopStatement
@@ -7,6 +8,7 @@ from jaqalpaq.core.gatedef import GateDefinition
 from jaqalpaq.core.macro import Macro
 
 
+@nesting_guard
 def expand_subcircuits(circuit, prepare_def=None, measure_def=None):
     """Expand subcircuit blocks by adding a prepare and measure gate as
     the first and last gates in the sequential block.
